@@ -1424,7 +1424,15 @@ func (st *State) txRun(fr *Frame, in ssa.CallInstruction, callee *ssa.Function, 
 				}
 			}
 		}
-		_ = logLen
+		// tables first looked at after the rollback must resolve to what they were before the transaction: the
+		// havoc events recorded inside it (contracts of the actions it ran) no longer apply to table arrays
+		if len(st2.havocLog) > logLen {
+			nl := append([]havocEvent(nil), st2.havocLog...)
+			for i := logLen; i < len(nl); i++ {
+				nl[i].Except = append(append([]string(nil), nl[i].Except...), "T:*")
+			}
+			st2.havocLog = nl
+		}
 	}
 	tx := st.allocRef()
 	ctx := args[1]
